@@ -23,6 +23,7 @@
 #include <cmath>
 #include <cstddef>
 #include <limits>
+#include <random>
 #include <type_traits>
 
 namespace hep
@@ -30,24 +31,50 @@ namespace hep
 
 /// \cond INTERNAL
 
+// generator with the same range as `R` that counts how often it is called
+template <typename R>
+class counting_generator
+{
+public:
+    using result_type = typename R::result_type;
+
+    static constexpr result_type min()
+    {
+        return R::min();
+    }
+
+    static constexpr result_type max()
+    {
+        return R::max();
+    }
+
+    result_type operator()()
+    {
+        ++count_;
+        return R::min();
+    }
+
+    std::size_t count() const
+    {
+        return count_;
+    }
+
+private:
+    std::size_t count_ = 0;
+};
+
 template <typename T, typename R>
 inline std::size_t random_number_usage()
 {
     using S = typename std::remove_reference<R>::type;
 
-    // the number of random bits
-    std::size_t const b = std::numeric_limits<T>::digits;
+    // the number of calls is a function of the generator's range and the number of random bits
+    // only; count them instead of predicting them, because standard libraries round the number of
+    // bits per call differently for generators whose range is a power of two
+    counting_generator<S> generator;
+    std::generate_canonical<T, std::numeric_limits<T>::digits>(generator);
 
-    // the number of different numbers the generator can generate
-    long double const r = static_cast <long double> (S::max())
-        - static_cast <long double> (S::min()) + 1.0L;
-
-    // the number of bits needed to hold the value of 'r'
-    std::size_t const log2r = std::log2(r);
-
-    std::size_t const k = std::max<std::size_t>(1, (b + log2r - 1UL) / log2r);
-
-    return k;
+    return generator.count();
 }
 
 inline std::size_t discard_before(std::size_t total_calls, std::size_t rank, std::size_t world)
